@@ -106,6 +106,8 @@ class Builder:
         typ = typ.strip()
         if typ in DEFAULTS:
             return decode(values.get(name, DEFAULTS[typ]))
+        if typ.startswith("const:"):
+            return typ[6:]
         if typ.startswith("list["):
             return list(decode(values.get(name, [])))
         if typ.startswith("alist["):
